@@ -74,6 +74,30 @@ def cmd_check(prop, args):
         prop, tier, c["obligations"], c["discharged"], c["functions_under_contract_count"], c["verus_wall_s"], code))
     return code
 
+def cmd_multi(props, args):
+    """developer command (seeds_run.py): ONE pipeline run, decided for several properties; prints one RESULT line per
+    property and writes no evidence file (evidence is only written by `./check <Cxx>`)."""
+    try:
+        seed = int(os.environ.get("VERIF_SEED", "0"))
+    except ValueError:
+        seed = 0
+    try:
+        r = R.full_run("quick", seed)
+    except P.Undecided as e:
+        for prop in props:
+            print("RESULT %s exit=2 :: UNDECIDED property=%s: %s" % (prop, prop, str(e).replace("\n", " ")[:400]))
+        return 2
+    worst = 0
+    for prop in props:
+        meta = props_meta().get(prop)
+        if meta is None:
+            print("RESULT %s exit=2 :: not claimed" % prop); continue
+        code, out, ev = R.decide(prop, r, "quick", seed, meta)
+        first = next((l for l in out if l.startswith("VIOLATION")), None) or next((l for l in out if l.startswith("UNDECIDED")), "")
+        print("RESULT %s exit=%d :: %s" % (prop, code, first[:700]))
+        worst = max(worst, code)
+    return worst
+
 def cmd_replay(args):
     path = args[0]
     rep = json.load(open(path))
@@ -101,6 +125,8 @@ def main(argv):
         return cmd_dev(argv[1:])
     if argv and argv[0] == "replay":
         return cmd_replay(argv[1:])
+    if argv and argv[0] == "multi":
+        return cmd_multi(argv[1].split(","), argv[2:])
     if argv and argv[0].startswith("C") and argv[0][1:].isdigit():
         return cmd_check(argv[0], argv[1:])
     print("usage: check gen|dev|replay <file>|<Cxx> [--tier quick|thorough]"); return 2
